@@ -5,8 +5,8 @@ Model of the response side of `twisted/web/http.py` and `twisted/web/http_header
 * `http_headers._sanitizeLinearWhitespace`  (`b" ".join(v.splitlines())`)        → `sanitize`
 * `http._sanitizeFieldContent` (that, then NUL / VT / FF are translated to a space) → `fieldContent`
 * `http_headers._NameEncoder.encode` + `_abnf._istoken`                          → `encodeName`
-* `http_headers.Headers.setRawHeaders / addRawHeader / getRawHeaders / getAllRawHeaders`
-  (`_rawHeaders` is an insertion-ordered `dict`)                                 → `dset`, `dappend`, `dget`
+* `http_headers.Headers.setRawHeaders / addRawHeader / removeHeader / getRawHeaders / getAllRawHeaders`
+  (`_rawHeaders` is an insertion-ordered `dict`)                                 → `dset`, `dappend`, `dremove`, `dget`
 * `http.Request.setResponseCode / setHeader / addCookie / write / finish`        → `step`
 * `http.HTTPChannel.writeHeaders / write / writeSequence / checkPersistence / requestDone`
   (as far as they decide the bytes written and whether the connection is closed) → `writeHeaders`, `init`
@@ -73,6 +73,14 @@ def latin1 : List Nat → Option Bytes
 def encValue : Str → Option Bytes
   | .b x => some x
   | .t cps => utf8 cps
+
+/-- the loop of `setRawHeaders` over `values`: `none` = one of them raised `UnicodeEncodeError`
+    (nothing has been assigned yet at that point) -/
+def encValues : List Str → Option (List Bytes)
+  | [] => some []
+  | v :: rest => match encValue v, encValues rest with
+    | some x, some r => some (x :: r)
+    | _, _ => none
 
 /-! ### `_sanitizeLinearWhitespace` -/
 
@@ -153,6 +161,9 @@ def dappend (d : Dict) (k : Bytes) (v : Bytes) : Dict :=
 /-- `_rawHeaders.setdefault(k, [])` alone -/
 def dsetdefault (d : Dict) (k : Bytes) : Dict := if d.any (·.1 = k) then d else d ++ [(k, [])]
 
+/-- `_rawHeaders.pop(k, None)` -/
+def dremove (d : Dict) (k : Bytes) : Dict := d.filter fun p => !decide (p.1 = k)
+
 /-- `getRawHeaders(name) is None`: absent, or present with an empty list -/
 def dmissing (d : Dict) (k : Bytes) : Bool :=
   match dget d k with
@@ -224,6 +235,8 @@ inductive Op where
   | setCode (code : Nat) (msg : Option Bytes)
   | setHeader (name value : Str)
   | addHeader (name value : Str)            -- `request.responseHeaders.addRawHeader`
+  | setRaw (name : Str) (values : List Str) -- `request.responseHeaders.setRawHeaders` (any number of values)
+  | remove (name : Str)                     -- `request.responseHeaders.removeHeader`
   | addCookie (k v : Str) (a : CookieAttrs)
   | write (data : Bytes)
   | finish
@@ -324,6 +337,17 @@ def step (r : Req) : Op → Req × Option Err
       -- empty entry for the name stays behind (it takes the name's place in the dict order)
       | none => ({ r with headers := dsetdefault r.headers n }, some .unicodeEncode)
       | some v => ({ r with headers := dappend r.headers n (sanitize v) }, none)
+  | .setRaw name values =>
+    -- the name is encoded first, then every value, then the one assignment `_rawHeaders[name] = [...]`
+    match encodeName name with
+    | .error e => (r, some e)
+    | .ok n => match encValues values with
+      | none => (r, some .unicodeEncode)
+      | some vs => ({ r with headers := dset r.headers n (vs.map sanitize) }, none)
+  | .remove name =>
+    match encodeName name with
+    | .error e => (r, some e)
+    | .ok n => ({ r with headers := dremove r.headers n }, none)
   | .addCookie k v a =>
     match cookieBytes k v a with
     | .error e => (r, some e)
